@@ -9,6 +9,25 @@ import (
 // String casts the provided string into the provided type, returning the
 // result in a reflect.Value.
 func String(str string, t reflect.Type) (reflect.Value, error) {
+	v, err := stringUnderlying(str, t)
+	if err != nil || !v.IsValid() {
+		return v, err
+	}
+	// hand back exactly the requested (possibly user-defined) type
+	want := reflect.PointerTo(t)
+	if k := t.Kind(); k == reflect.Slice || k == reflect.Map {
+		want = t
+	}
+	if v.Type() != want {
+		if !v.Type().ConvertibleTo(want) {
+			return reflect.Value{}, fmt.Errorf("value %q cannot be translated to type %s", str, t)
+		}
+		v = v.Convert(want)
+	}
+	return v, nil
+}
+
+func stringUnderlying(str string, t reflect.Type) (reflect.Value, error) {
 	switch t.Kind() {
 	case reflect.String:
 		return reflect.ValueOf(&str), nil
